@@ -2,47 +2,62 @@
   C04 for the flexbox algorithm: homogeneity under uniform scaling of the whole of src/compute/flexbox.rs
   (`FlexModel.computeFlexboxLayout`, Model/Flex.lean) as an interaction program, at `Rat`, for every `k > 0`.
 
-  THE UNCONDITIONAL STATEMENT IS FALSE (`flex_not_homogeneous`, witness replayed on the real code: known finding
-  c04-flex-shrink-floor-at-one).  The one obstruction is flexbox.rs l.1095, in the intrinsic (min- or max-content) arm of
-  `determine_container_main_size`:
-        content_flex_fraction = diff / f32_max(1.0, flex_shrink * inner_flex_basis)         (diff < 0)
-  a length times a factor is compared with the literal 1.  Everything else in flexbox.rs is homogeneous:
+  THE UNCONDITIONAL STATEMENT HOLDS (`flex_homogeneous`): the program of the scaled container IS the scaled program, in
+  exactly the form `C04.AlgsHomogeneous` asks for (`scaleProg`) — item generation, flex base sizes, line breaking, the
+  main-size determination (all arms, the intrinsic one included), flexible lengths, hypothetical cross sizes, baselines,
+  line cross sizes, align-content, used cross sizes, free-space distribution, auto margins, the final layout pass,
+  absolutely positioned children, hidden children.  Hence `AlgsHomogeneous` for leaf + block + flexbox with only the grid
+  hypothesis left (`algsHomogeneous_flex`), and the tree-level theorem `C04.tree_homogeneous` for every tree of block
+  containers, flexbox containers and leaves with no hypothesis at all (`tree_homogeneous_block_flex_leaf_trees`).
 
-    * `flex_split` + `flex_prefix_sim` + `flex_after_main_homogeneous`: the program is `prefixProg >>= afterMain`;
-      `afterMain` (steps 6–16, final layout pass, absolute pass, hidden pass, output) is homogeneous for EVERY state;
-      `prefixProg` (steps 1–5 and the main-size determination) of the scaled container sends exactly the scaled child
-      queries, and its result is the scaled result on every run on which no item hits the floor.
-    * `flex_homogeneous_partial` (static side condition): if the container's main size is NOT determined intrinsically
-      — the main dimension is known, or the available main space is definite, or the container wraps under a
-      min-content constraint (`noIntrinsicMain_iff`) — the program of the scaled container IS the scaled program, in
-      exactly the form `C04.AlgsHomogeneous` asks for (`scaleProg`).
-    * `flex_homogeneous_run_partial` (dynamic side condition, exact): for every family of children `orc`, if in the run
-      of the container against `orc` every item `i` leaving `determine_container_main_size` satisfies
-          i.content_flex_fraction < 0 → i.inner_flex_basis = 0 ∨
-              (1 ≤ i.flex_shrink·i.inner_flex_basis ∧ 1 ≤ k·i.flex_shrink·i.inner_flex_basis)
-      (`C04.ItemFloorFree`, decidable), then the run of the scaled container against the scaled children returns the
-      scaled output, sends the scaled queries and sets the scaled layouts.
-      What this excludes, precisely: an item whose content contribution is smaller than its flex basis (`diff < 0`,
-      i.e. it would have to shrink to its content), with a non-zero inner flex basis, for which
-      `flex_shrink · inner_flex_basis < 1` before or after scaling.  For such an item `item_fraction_not_homogeneous`
-      shows the computed target size is NOT the scaled one (so the condition is exact item by item, up to `k = 1`).
+  History.  Up to the repair of flexbox.rs ll.1095–1102 the statement was FALSE: in the intrinsic (min- or max-content)
+  arm of `determine_container_main_size` the max-content flex fraction of a shrinking item was
+        content_flex_fraction = diff / f32_max(1.0, flex_shrink * inner_flex_basis)         (diff < 0)
+  — a length times a factor compared with the literal 1 — whereas the line that multiplies it back uses
+  `f32_max(1.0, flex_shrink) * inner_flex_basis` (finding c04-flex-shrink-floor-at-one).  The repaired line floors the
+  flex shrink FACTOR at 1 (CSS Flexbox §9.9.1: "scaled flex shrink factor, having floored the flex shrink factor at 1"):
+        let scaled_shrink_factor = f32_max(1.0, item.flex_shrink) * item.inner_flex_basis;
+        if scaled_shrink_factor > 0.0 { diff / scaled_shrink_factor } else { 0.0 }
+  The old witness is kept below as a regression example (`regression_*`): it is now homogeneous.
+
+    * `flex_split` + `flex_prefix_homogeneous` + `flex_after_main_homogeneous`: the program is `prefixProg >>= afterMain`;
+      `prefixProg` (steps 1–5 and the main-size determination) and `afterMain` (steps 6–16, final layout pass, absolute
+      pass, hidden pass, output) are each homogeneous, for every state.
+    * `item_fraction_homogeneous` / `item_target_homogeneous`: the item-level statements behind the intrinsic arm.
+      `FlexItem.content_flex_fraction` is the one field of mixed dimension: a length when positive
+      (`diff / max(1, flex_grow)`), a pure number when negative (`diff / (max(1, flex_shrink) · inner_flex_basis)`);
+      `C04.cffScale` scales it accordingly.
+    * `flex_homogeneous_run`: for every family of children `orc`, the run of the scaled container against the scaled
+      children returns the scaled output, sends the scaled queries and sets the scaled layouts.
 
   Helper lemmas: Lemmas/FlexStages.lean, FlexItemStages.lean (the program cut into named pieces, every `…_eq` is `rfl`),
   FlexScaleInst.lean (`Scalable` instances), FlexScalePure.lean, FlexScaleCross.lean, FlexScaleProg.lean,
-  FlexScaleProg2.lean, FlexScaleMain.lean, FlexScaleTop.lean, FlexScaleRun.lean.
+  FlexScaleProg2.lean, FlexScaleMain.lean, FlexScaleTop.lean, FlexScaleRun.lean; Lemmas/FlexNoGrid.lean (`NoGrid`).
 -/
 import TaffyVerif.Lemmas.FlexScaleRun
+import TaffyVerif.Lemmas.FlexNoGrid
 import TaffyVerif.Props.C04
+import TaffyVerif.Props.C17
 
 set_option linter.unusedSectionVars false
 set_option linter.unusedVariables false
 
 namespace C04Flex
-open Scalable FlexModel FlexStages C04 Eval
+open Scalable FlexModel FlexStages C04 Eval FlexTrees
 
 variable {k : Rat}
 
-/-! ### 1. the decomposition: prefix + everything after the main size -/
+/-! ### 1. the flexbox program is homogeneous -/
+
+/-- **flex_homogeneous**: the whole of `compute_flexbox_layout` as an interaction program: for every `k > 0`, every
+container style, child style list and input, the program of the scaled container is the scaled program (scaled queries
+to the children, scaled layouts set, scaled output).  No side condition. -/
+theorem flex_homogeneous : ∀ k : Rat, 0 < k → ∀ (style : Style Rat) (cs : List (Style Rat)) (inp : LayoutInput Rat),
+    computeFlexboxLayout (scale k style) (cs.map (scale k)) (scale k inp) =
+      scaleProg k (computeFlexboxLayout style cs inp) :=
+  fun _ hk style cs inp => computeFlexboxLayout_scale hk style cs inp
+
+/-! ### 2. the decomposition: prefix + everything after the main size -/
 
 /-- **flex_split**: `compute_flexbox_layout` is the `ComputeSize` short-circuit or `prefixProg >>= afterMain`, for the
 container and for the scaled container alike -/
@@ -62,115 +77,173 @@ theorem flex_split (hk : 0 < k) (style : Style Rat) (cs : List (Style Rat)) (inp
   · refine Or.inr ⟨by rw [h1, computePreliminary_split], ?_⟩
     rw [h2, flexInput_scale hk, computePreliminary_split, prelimAvail_scale hk]
 
+/-- **flex_prefix_homogeneous**: steps 1–5 (constants, available space, item generation, flex base sizes, line
+breaking) and `determine_container_main_size`, all arms -/
+theorem flex_prefix_homogeneous (hk : 0 < k) (style : Style Rat) (cs : List (Style Rat)) (inp : LayoutInput Rat) :
+    prefixProg (scale k style) (cs.map (scale k)) (scale k inp) = scaleProg k (prefixProg style cs inp) :=
+  prefixProg_scale hk style cs inp
+
+/-- `determine_container_main_size` alone, from any constants, available space and lines -/
+theorem flex_main_size_homogeneous (hk : 0 < k) (c : AlgoConstants Rat) (av : Size (AvailableSpace Rat))
+    (lines : List (FlexLineS Rat)) :
+    determineContainerMainSize (scale k c) (scale k av) (scale k lines) =
+      scaleProg k (determineContainerMainSize c av lines) :=
+  determineContainerMainSize_scale hk c av lines
+
 /-- **flex_after_main_homogeneous**: steps 6–16, the final layout pass, the absolute pass, the hidden pass and the
-output, from ANY lines and constants: the program for the scaled state is the scaled program.  No side condition. -/
+output, from ANY lines and constants -/
 theorem flex_after_main_homogeneous (hk : 0 < k) (cs : List (Style Rat)) (inp : LayoutInput Rat)
     (av : Size (AvailableSpace Rat)) (r : List (FlexLineS Rat) × AlgoConstants Rat) :
     afterMain (cs.map (scale k)) (scale k inp) (scale k av) (scale k r) = scaleProg k (afterMain cs inp av r) :=
   afterMain_scale hk cs inp av r
 
-/-- **flex_prefix_sim**: steps 1–5 and the main-size determination: same shape, scaled queries, and the scaled result
-on every run on which no item hits the floor -/
-theorem flex_prefix_sim (hk : 0 < k) (style : Style Rat) (cs : List (Style Rat)) (inp : LayoutInput Rat) :
-    SimS k (fun r' r => LinesFloorFree k r.1 → r' = scale k r)
-      (prefixProg (scale k style) (cs.map (scale k)) (scale k inp)) (prefixProg style cs inp) :=
-  prefixProg_sim hk style cs inp
+/-! ### 3. the intrinsic arm, item by item -/
 
-/-- `SimS` with the result relation "scaled" is exactly `scaleProg` (so `flex_prefix_sim` is the `AlgsHomogeneous`
-form, weakened in the result only) -/
-theorem simS_iff_scaleProg {β : Type} [Scalable β] (hk : 0 < k) (p' p : ProgM Rat β) :
-    SimS k (fun b' b => b' = scale k b) p' p ↔ p' = scaleProg k p :=
-  ⟨SimS.to_eq hk, SimS.of_eq' hk⟩
+/-- **item_fraction_homogeneous**: `content_flex_fraction` of the scaled item, computed from the scaled content
+contribution, is the original one re-scaled (`cffScale`: as a length when positive, unchanged when negative) -/
+theorem item_fraction_homogeneous (hk : 0 < k) (item : FlexItem Rat) (cc : Rat) :
+    inFinish (scale k item) (scale k cc) = scale k (inFinish item cc) :=
+  inFinish_scale hk item cc
 
-/-! ### 2. the static side condition -/
+/-- the sign of `content_flex_fraction` tells its dimension: a shrinking item (`diff < 0`) never gets a positive one, a
+growing item (`diff > 0`) gets a positive one -/
+theorem item_fraction_sign (item : FlexItem Rat) (cc : Rat) :
+    (cc - item.flexBasis < 0 → (inFinish item cc).contentFlexFraction ≤ 0) ∧
+    (0 < cc - item.flexBasis → 0 < (inFinish item cc).contentFlexFraction) :=
+  ⟨inFraction_nonpos_of_neg item cc, inFraction_pos_of_pos item cc⟩
 
-/-- **noIntrinsicMain_iff**: what the static side condition says about the container's input: the main dimension is
-known, or the available main space is definite, or the container wraps and the main constraint is min-content -/
-theorem noIntrinsicMain_iff (style : Style Rat) (inp : LayoutInput Rat) :
-    NoIntrinsicMain style inp ↔
-      ((inp.knownDimensions.main style.flexDirection).isSome = true ∨
-       (inp.availableSpace.main style.flexDirection).isDefinite = true ∨
-       (inp.availableSpace.main style.flexDirection = .minContent ∧ style.flexWrap ≠ .noWrap)) := by
-  unfold NoIntrinsicMain NoIntrinsic prelimAvail prelimConsts determineAvailableSpace computeConstants
-  obtain ⟨rm, sm, ax, ⟨kw, kh⟩, ps, ⟨aw, ah⟩, vm⟩ := inp
-  simp only [Size.main, Size.of_sub]
-  cases hd : style.flexDirection.isRow <;> cases hwr : style.flexWrap <;> cases kw <;> cases kh <;> cases aw <;>
-    cases ah <;>
-    (simp [MaybeMath.of_sub, MaybeMath.af_sub, AvailableSpace.isDefinite, hd] <;> try decide)
+/-- the target main size a SHRINKING item (`diff < 0`) contributes to the container's intrinsic main size, as a function
+of its flex basis, shrink factor, inner flex basis and content contribution (repaired code) -/
+def itemTarget (basis shrink inner cc : Rat) : Rat :=
+  let scaledShrinkFactor := Num.fmax 1 shrink * inner
+  let cff := if 0 < scaledShrinkFactor then (cc - basis) / scaledShrinkFactor else 0
+  basis + scaledShrinkFactor * cff
 
-/-- **flex_homogeneous_partial** (static side condition): the whole of `compute_flexbox_layout` — item generation,
-flex base sizes, line breaking, flexible lengths, hypothetical cross sizes, baselines, line cross sizes, align-content,
-used cross sizes, free-space distribution, auto margins, the final layout pass, absolutely positioned children, hidden
-children — as an interaction program: if the container's main size is not determined intrinsically, the program of the
-scaled container is the scaled program. -/
-theorem flex_homogeneous_partial (hk : 0 < k) (style : Style Rat) (cs : List (Style Rat)) (inp : LayoutInput Rat)
-    (h : NoIntrinsicMain style (flexInput style inp)) :
-    computeFlexboxLayout (scale k style) (cs.map (scale k)) (scale k inp) =
-      scaleProg k (computeFlexboxLayout style cs inp) :=
-  computeFlexboxLayout_scale_of hk style cs inp h
+/-- **item_target_homogeneous**: the counterpart of the refutation that held before the repair
+(`item_fraction_not_homogeneous`): the target size of the scaled item is the scaled target size, for all values -/
+theorem item_target_homogeneous (hk : 0 < k) (basis shrink inner cc : Rat) :
+    itemTarget (k * basis) shrink (k * inner) (k * cc) = k * itemTarget basis shrink inner cc := by
+  unfold itemTarget
+  have e : Num.fmax 1 shrink * (k * inner) = k * (Num.fmax 1 shrink * inner) := by ring
+  simp only [e]
+  by_cases hs : 0 < Num.fmax 1 shrink * inner
+  · have hks : 0 < k * (Num.fmax 1 shrink * inner) := mul_pos hk hs
+    rw [if_pos hks, if_pos hs]
+    field_simp
+  · have hks : ¬ (0 < k * (Num.fmax 1 shrink * inner)) := by
+      have := mul_nonneg hk.le (neg_nonneg.2 (not_lt.1 hs))
+      rw [mul_neg] at this
+      intro h
+      linarith
+    rw [if_neg hks, if_neg hs]
+    ring
 
-/-- the side condition is invariant under scaling (it is about which dimensions are known/definite, not about values) -/
-theorem noIntrinsicMain_scale (hk : 0 < k) (style : Style Rat) (inp : LayoutInput Rat) :
-    NoIntrinsicMain (scale k style) (scale k inp) ↔ NoIntrinsicMain style inp := by
-  rw [noIntrinsicMain_iff, noIntrinsicMain_iff]
-  simp only [style_flexDirection, style_flexWrap, li_knownDimensions, li_availableSpace, Size.main_scale,
-    isSome_scale, AvailableSpace.isDefinite_scale]
-  cases inp.availableSpace.main style.flexDirection <;> simp [scale_simp]
+/-- with a positive inner flex basis the item shrinks exactly to its content contribution -/
+theorem item_target_eq (basis shrink inner cc : Rat) (hi : 0 < inner) : itemTarget basis shrink inner cc = cc := by
+  unfold itemTarget
+  have hs : 0 < Num.fmax 1 shrink * inner := mul_pos (by linarith [one_le_fmax_one shrink]) hi
+  simp only [if_pos hs]
+  generalize Num.fmax 1 shrink * inner = s at hs
+  have e : s * ((cc - basis) / s) = cc - basis := by field_simp
+  rw [e]
+  ring
 
-/-! ### 3. the dynamic side condition (exact) -/
+/-! ### 4. runs against child-answer functions -/
 
-/-- **flex_homogeneous_run_partial**: for every family of children: if no item hits the floor in the run of the
-original container, the run of the scaled container against the scaled children is the scaled run (output, queries,
-layouts). -/
-theorem flex_homogeneous_run_partial (hk : 0 < k) (style : Style Rat) (cs : List (Style Rat)) (inp : LayoutInput Rat)
-    (orc : Nat → LayoutInput Rat → LayoutOutput Rat) (h : RunFloorFree k style cs inp orc) :
+/-- **flex_homogeneous_run**: for every family of children: the run of the scaled container against the scaled
+children is the scaled run (output, queries, layouts) -/
+theorem flex_homogeneous_run (hk : 0 < k) (style : Style Rat) (cs : List (Style Rat)) (inp : LayoutInput Rat)
+    (orc : Nat → LayoutInput Rat → LayoutOutput Rat) :
     runO (scaleOrc k orc) (computeFlexboxLayout (scale k style) (cs.map (scale k)) (scale k inp)) =
       scale k (runO orc (computeFlexboxLayout style cs inp)) :=
-  computeFlexboxLayout_scale_run hk style cs inp orc h
+  computeFlexboxLayout_scale_run hk style cs inp orc
 
-/-- the same for programs that ARE homogeneous (e.g. block): runs against scaled children are scaled runs -/
+/-- the same for any homogeneous program (e.g. block): runs against scaled children are scaled runs -/
 theorem run_of_homogeneous {β : Type} [Scalable β] (hk : 0 < k) (orc : Nat → LayoutInput Rat → LayoutOutput Rat)
     (p : ProgM Rat β) : runO (scaleOrc k orc) (scaleProg k p) = scale k (runO orc p) :=
   runO_scaleProg hk orc p
 
-/-- **item_floor_homogeneous**: the item-level statement behind the side condition: `content_flex_fraction` of the
-scaled item, computed from the scaled content contribution, is the original one re-scaled (`cffScale`) -/
-theorem item_floor_homogeneous (hk : 0 < k) (item : FlexItem Rat) (cc : Rat)
-    (h : ItemFloorFree k (inFinish item cc)) :
-    inFinish (scale k item) (scale k cc) = scale k (inFinish item cc) :=
-  inFinish_scale hk item cc h
+/-! ### 5. the evaluator's algorithms and the tree level -/
 
-/-- the target main size an item contributes to the container's intrinsic main size, as a function of its flex basis,
-shrink factor, inner flex basis and content contribution -/
-def itemTarget (basis shrink inner cc : Rat) : Rat :=
-  let cff := (cc - basis) / Num.fmax 1 (shrink * inner)
-  basis + (Num.fmax 1 shrink * inner) * cff
+/-- **algsHomogeneous_flex**: `C04.AlgsHomogeneous` for the modelled leaf, block and flexbox algorithms: only the grid
+hypothesis remains -/
+theorem algsHomogeneous_flex (hk : 0 < k)
+    (grid : Style Rat → List (Style Rat) → LayoutInput Rat → ProgM Rat (LayoutOutput Rat))
+    (hgrid : ∀ style styles inp,
+      grid (scale k style) (styles.map (scale k)) (scale k inp) = scaleProg k (grid style styles inp)) :
+    AlgsHomogeneous (concreteAlgs computeFlexboxLayout grid) k :=
+  algs_homogeneous_concrete hk _ grid (flex_homogeneous k hk) hgrid
 
-/-- **item_fraction_not_homogeneous**: the side condition is exact item by item: for `diff < 0`, a non-zero inner flex
-basis and `flex_shrink ≥ 0`, if `flex_shrink·inner_flex_basis < 1` the target size of the scaled item is NOT the scaled
-target size (for every `k ≠ 1`, `k > 0` keeping the product below 1; when the product crosses 1 likewise, see
-`flex_not_homogeneous`) -/
-theorem item_fraction_not_homogeneous (hk : 0 < k) (hk1 : k ≠ 1) (basis shrink inner cc : Rat) (hd : cc - basis < 0)
-    (hi : 0 < inner) (hs : 0 ≤ shrink) (hp : shrink * inner < 1) (hkp : shrink * (k * inner) < 1) :
-    itemTarget (k * basis) shrink (k * inner) (k * cc) ≠ k * itemTarget basis shrink inner cc := by
-  unfold itemTarget
-  have e1 : Num.fmax (1 : Rat) (shrink * inner) = 1 := by rw [fmax_def, if_neg (not_le.2 hp)]
-  have e2 : Num.fmax (1 : Rat) (shrink * (k * inner)) = 1 := by rw [fmax_def, if_neg (not_le.2 hkp)]
-  have hm : 1 ≤ Num.fmax (1 : Rat) shrink := one_le_fmax_one shrink
-  simp only [e1, e2, div_one]
-  intro h
-  have : Num.fmax 1 shrink * inner * (cc - basis) * (k * (k - 1)) = 0 := by linarith [h]
-  have h1 : Num.fmax 1 shrink * inner * (cc - basis) ≠ 0 :=
-    mul_ne_zero (mul_ne_zero (by linarith) hi.ne') hd.ne
-  rcases mul_eq_zero.1 this with h2 | h2
-  · exact h1 h2
-  · rcases mul_eq_zero.1 h2 with h3 | h3
-    · exact hk.ne' h3
-    · exact hk1 (by linarith)
+/-- **tree_homogeneous_flex_algs**: `C04.tree_homogeneous` (cache-free evaluator, real dispatch) with the concrete leaf,
+block and flexbox algorithms, for every tree; homogeneity of grid is the one hypothesis -/
+theorem tree_homogeneous_flex_algs (hk : 0 < k)
+    (grid : Style Rat → List (Style Rat) → LayoutInput Rat → ProgM Rat (LayoutOutput Rat))
+    (hgrid : ∀ style styles inp,
+      grid (scale k style) (styles.map (scale k)) (scale k inp) = scaleProg k (grid style styles inp))
+    (fuel : Nat) (t : STree Rat) (ns : NS Rat Unit) (inp : LayoutInput Rat) :
+    evalNode noCache (concreteAlgs computeFlexboxLayout grid) fuel (scale k t) (scale k ns) (scale k inp) =
+      scale k (evalNode noCache (concreteAlgs computeFlexboxLayout grid) fuel t ns inp) :=
+  tree_homogeneous_evalNode hk _ (algsHomogeneous_flex hk grid hgrid) fuel t ns inp
 
-/-! ### 4. the unconditional statement is false -/
+/-- `TaffyTree`'s extracted dispatch never sends a node of a `NoGrid` tree to grid -/
+theorem NoGrid_NoG_real (t : STree Rat) (h : NoGrid t) : NoG (Dispatch.select Gen.Facts.dispatchArms) t :=
+  NoGrid_NoG _ (fun d b => by rw [C17.dispatch_eq]; cases d <;> rfl) t h
 
-section witness
+mutual
+/-- scaling keeps `display` and the number of children: the scaled tree of a `NoGrid` tree is `NoGrid` -/
+theorem NoGrid_scale (k : Rat) : ∀ t : STree Rat, NoGrid t → NoGrid (scale k t)
+  | .node s c kids, h => by
+    rw [scale_tree_node]
+    simp only [NoGrid] at h ⊢
+    rw [style_display]
+    rcases h with h | ⟨h, hk⟩
+    · exact Or.inl h
+    · refine Or.inr ⟨?_, NoGridList_scale k kids hk⟩
+      rcases h with h | h
+      · subst h; exact Or.inl rfl
+      · exact Or.inr h
+theorem NoGridList_scale (k : Rat) : ∀ ts : List (STree Rat), NoGridList ts → NoGridList (scale k ts)
+  | [], _ => trivial
+  | t :: ts, h => by
+    rw [scale_cons]
+    exact ⟨NoGrid_scale k t h.1, NoGridList_scale k ts h.2⟩
+end
+
+/-- on a `NoGrid` tree the cache-free evaluator does not depend on the grid parameter -/
+theorem eval_noGrid_congr (grid grid' : Style Rat → List (Style Rat) → LayoutInput Rat → ProgM Rat (LayoutOutput Rat))
+    (fuel : Nat) (t : STree Rat) (ns : NS Rat Unit) (inp : LayoutInput Rat) (h : NoGrid t) :
+    evalNode noCache (concreteAlgs computeFlexboxLayout grid) fuel t ns inp =
+      evalNode noCache (concreteAlgs computeFlexboxLayout grid') fuel t ns inp :=
+  eval_algs_congr_grid noCache _ (concreteAlgs computeFlexboxLayout grid) (concreteAlgs computeFlexboxLayout grid')
+    rfl rfl rfl fuel t ns inp (NoGrid_NoG_real t h)
+
+/-- **tree_homogeneous_block_flex_leaf_trees** (unconditional): for every tree of block containers, flexbox containers
+and leaves (`NoGrid`: no grid container with children outside `display:none` subtrees), every `k > 0`, fuel, state of
+stored layouts and input, whatever the grid algorithm is: evaluating the scaled tree with the scaled input from the scaled
+state (cache-free evaluator, `TaffyTree`'s dispatch, the modelled leaf, block and flexbox algorithms) yields the scaled
+output and the scaled state — every stored unrounded layout of every node scaled. -/
+theorem tree_homogeneous_block_flex_leaf_trees (hk : 0 < k)
+    (grid : Style Rat → List (Style Rat) → LayoutInput Rat → ProgM Rat (LayoutOutput Rat))
+    (fuel : Nat) (t : STree Rat) (ns : NS Rat Unit) (inp : LayoutInput Rat) (h : NoGrid t) :
+    evalNode noCache (concreteAlgs computeFlexboxLayout grid) fuel (scale k t) (scale k ns) (scale k inp) =
+      scale k (evalNode noCache (concreteAlgs computeFlexboxLayout grid) fuel t ns inp) := by
+  rw [eval_noGrid_congr grid BlockModel.computeBlockLayout fuel (scale k t) _ _ (NoGrid_scale k t h),
+    eval_noGrid_congr grid BlockModel.computeBlockLayout fuel t _ _ h]
+  exact tree_homogeneous_flex_algs hk _ (block_homogeneous hk) fuel t ns inp
+
+/-- the same from freshly built trees (the fresh state of the scaled tree is the scaled fresh state) -/
+theorem tree_homogeneous_block_flex_leaf_trees_fresh (hk : 0 < k)
+    (grid : Style Rat → List (Style Rat) → LayoutInput Rat → ProgM Rat (LayoutOutput Rat))
+    (fuel : Nat) (t : STree Rat) (inp : LayoutInput Rat) (h : NoGrid t) :
+    evalNode noCache (concreteAlgs computeFlexboxLayout grid) fuel (scale k t) (NS.init noCache (scale k t))
+        (scale k inp) =
+      scale k (evalNode noCache (concreteAlgs computeFlexboxLayout grid) fuel t (NS.init noCache t) inp) := by
+  rw [init_scale]
+  exact tree_homogeneous_block_flex_leaf_trees hk grid fuel t _ inp h
+
+/-! ### 6. regression: the witness of the former refutation -/
+
+section regression
 
 /-- a default flex container (row, no size) … -/
 def wRoot : Style Rat := Style.default
@@ -187,41 +260,32 @@ def wIn : LayoutInput Rat :=
 def wOrc : Nat → LayoutInput Rat → LayoutOutput Rat :=
   fun _ inp => LayoutOutput.fromOuterSize ⟨inp.knownDimensions.width.getD 0, inp.knownDimensions.height.getD 0⟩
 
-/-- the container is 3/8 wide (its only item is 1/4 wide: flex basis 1/2, content contribution 1/4, `diff = −1/4`,
-`flex_shrink·inner_flex_basis = 1/2 < 1`, so the shrink fraction is floored: `1/2 + 1/2·(−1/4) = 3/8`); four times
-larger it is 1 wide (`2 + 2·(−1/2) = 1`), not 3/2.  Real taffy (rounding off): root 0.375×1 resp. 1×4. -/
-theorem witness_values :
-    (runO wOrc (computeFlexboxLayout wRoot [wChild] wIn)).1.size = ⟨3/8, 1⟩ ∧
-    (runO (scaleOrc 4 wOrc) (computeFlexboxLayout (scale 4 wRoot) ([wChild].map (scale 4)) (scale 4 wIn))).1.size =
-      ⟨1, 4⟩ := by decide +kernel
+def boxes (r : LayoutOutput Rat × Trace) : Size Rat × List (Nat × Point Rat × Size Rat) :=
+  (r.1.size, r.2.2.map fun p => (p.1, p.2.location, p.2.size))
 
-/-- the dynamic side condition fails on the witness (and holds for the enlarged container, whose product is 2 ≥ 1) -/
-theorem witness_side_condition :
-    ¬ RunFloorFree 4 wRoot [wChild] wIn wOrc ∧ ¬ NoIntrinsicMain wRoot (flexInput wRoot wIn) ∧
-    RunFloorFree 1 (scale 4 wRoot) ([wChild].map (scale 4)) (scale 4 wIn) (scaleOrc 4 wOrc) := by decide +kernel
+/-- the container is 1/4 wide: its only item has flex basis 1/2, content contribution 1/4, `diff = −1/4`, scaled shrink
+factor `max(1, 1)·1/2 = 1/2`, fraction `−1/2`, target `1/2 + 1/2·(−1/2) = 1/4` (before the repair: fraction
+`−1/4 / max(1, 1/2) = −1/4`, container 3/8 wide).  Four times larger it is 1 wide (before the repair: also 1, which is
+not 4 · 3/8). -/
+example :
+    boxes (runO wOrc (computeFlexboxLayout wRoot [wChild] wIn)) = (⟨1/4, 1⟩, [(0, ⟨0, 0⟩, ⟨1/4, 1⟩)]) ∧
+    boxes (runO (scaleOrc 4 wOrc) (computeFlexboxLayout (scale 4 wRoot) ([wChild].map (scale 4)) (scale 4 wIn))) =
+      (⟨1, 4⟩, [(0, ⟨0, 0⟩, ⟨1, 4⟩)]) := by decide +kernel
 
-/-- **flex_not_homogeneous**: `compute_flexbox_layout` is NOT homogeneous: there are a container, a child list, an input
-and `k = 4` for which the program of the scaled container is not the scaled program -/
-theorem flex_not_homogeneous :
-    ¬ ∀ (style : Style Rat) (cs : List (Style Rat)) (inp : LayoutInput Rat),
-      computeFlexboxLayout (scale 4 style) (cs.map (scale 4)) (scale 4 inp) =
-        scaleProg 4 (computeFlexboxLayout style cs inp) := by
-  intro h
-  have h1 := congrArg (fun p => (runO (scaleOrc 4 wOrc) p).1.size) (h wRoot [wChild] wIn)
-  simp only [runO_scaleProg (by norm_num : (0 : Rat) < 4)] at h1
-  rw [witness_values.2, scale_fst, lo_size, witness_values.1] at h1
-  revert h1
-  decide +kernel
+/-- the whole run (output, queries, layouts set) of the container scaled by 4 is the run scaled by 4, by evaluation … -/
+example :
+    runO (scaleOrc 4 wOrc) (computeFlexboxLayout (scale 4 wRoot) ([wChild].map (scale 4)) (scale 4 wIn)) =
+      scale 4 (runO wOrc (computeFlexboxLayout wRoot [wChild] wIn)) := by decide +kernel
 
-/-- hence `C04.AlgsHomogeneous` fails at `k = 4` for the evaluator's algorithms with the flexbox model, whatever the grid
-algorithm is -/
-theorem not_algsHomogeneous_flex (grid : Style Rat → List (Style Rat) → LayoutInput Rat → ProgM Rat (LayoutOutput Rat)) :
-    ¬ AlgsHomogeneous (concreteAlgs computeFlexboxLayout grid) 4 :=
-  fun h => flex_not_homogeneous h.flex
+/-- … and by the theorem -/
+example :
+    runO (scaleOrc 4 wOrc) (computeFlexboxLayout (scale 4 wRoot) ([wChild].map (scale 4)) (scale 4 wIn)) =
+      scale 4 (runO wOrc (computeFlexboxLayout wRoot [wChild] wIn)) :=
+  flex_homogeneous_run (by norm_num) _ _ _ _
 
-end witness
+end regression
 
-/-! ### 5. non-vacuity: concrete instances of the positive theorems -/
+/-! ### 7. non-vacuity: concrete instances -/
 
 section examples
 
@@ -250,47 +314,106 @@ def exIn : LayoutInput Rat :=
 def exOrc : Nat → LayoutInput Rat → LayoutOutput Rat :=
   fun _ inp => LayoutOutput.fromOuterSize ((MeasureSpec.wrap 50 8).measure inp.knownDimensions inp.availableSpace)
 
-/-- the static side condition holds: the container has a definite width (row direction) -/
-example : NoIntrinsicMain exRoot (flexInput exRoot exIn) := by decide +kernel
-
-/-- `flex_homogeneous_partial` at k = 2 and k = 1/4: a wrapping, padded (percentage padding), gapped container with a
-growing item with an auto margin, a shrinking percentage-basis item, an absolutely positioned child (percentage inset and
-width) and a hidden child -/
+/-- `flex_homogeneous` at k = 2 and k = 1/4: a wrapping, padded (percentage padding), gapped container with a growing
+item with an auto margin, a shrinking percentage-basis item, an absolutely positioned child (percentage inset and width)
+and a hidden child -/
 example : computeFlexboxLayout (scale 2 exRoot) ([exKidA, exKidB, exKidAbs, exKidHidden, exKidB].map (scale 2))
       (scale 2 exIn) =
     scaleProg 2 (computeFlexboxLayout exRoot [exKidA, exKidB, exKidAbs, exKidHidden, exKidB] exIn) :=
-  flex_homogeneous_partial (by norm_num) _ _ _ (by decide +kernel)
+  flex_homogeneous 2 (by norm_num) _ _ _
 example : computeFlexboxLayout (scale (1/4) exRoot) ([exKidA, exKidB, exKidAbs, exKidHidden, exKidB].map (scale (1/4)))
       (scale (1/4) exIn) =
     scaleProg (1/4) (computeFlexboxLayout exRoot [exKidA, exKidB, exKidAbs, exKidHidden, exKidB] exIn) :=
-  flex_homogeneous_partial (by norm_num) _ _ _ (by decide +kernel)
-
-def boxes (r : LayoutOutput Rat × Trace) : Size Rat × List (Nat × Point Rat × Size Rat) :=
-  (r.1.size, r.2.2.map fun p => (p.1, p.2.location, p.2.size))
+  flex_homogeneous (1/4) (by norm_num) _ _ _
 
 /-- and what the two runs compute (two flex lines; every size and location doubles) -/
 example : boxes (runO exOrc (computeFlexboxLayout exRoot [exKidA, exKidB, exKidAbs, exKidHidden, exKidB] exIn)) =
     (⟨100, 56⟩, [(0, ⟨3, 43/2⟩, ⟨43, 10⟩), (1, ⟨50, 20⟩, ⟨48, 16⟩), (4, ⟨2, 38⟩, ⟨48, 16⟩),
       (2, ⟨3, 14⟩, ⟨50, 10⟩), (3, ⟨0, 0⟩, ⟨0, 0⟩)]) := by decide +kernel
+example : boxes (runO (scaleOrc 2 exOrc) (computeFlexboxLayout (scale 2 exRoot)
+      ([exKidA, exKidB, exKidAbs, exKidHidden, exKidB].map (scale 2)) (scale 2 exIn))) =
+    (⟨200, 112⟩, [(0, ⟨6, 43⟩, ⟨86, 20⟩), (1, ⟨100, 40⟩, ⟨96, 32⟩), (4, ⟨4, 76⟩, ⟨96, 32⟩),
+      (2, ⟨6, 28⟩, ⟨100, 20⟩), (3, ⟨0, 0⟩, ⟨0, 0⟩)]) := by decide +kernel
 
-/-- the dynamic theorem on an intrinsically sized container: a max-content row container whose shrinking item has
-`flex_shrink·inner_flex_basis = 2·20 ≥ 1` (and `≥ 1` after scaling by 1/8) -/
+/-- an INTRINSICALLY sized container (the arm that used to fail): a max-content row container with a shrinking item whose
+scaled shrink factor is `max(1, 1/4)·(1/2) = 1/2` — the product `flex_shrink·inner_flex_basis = 1/8` is below 1 before
+and after scaling by 4 and by 1/8 — and a growing text item -/
 def exRootI : Style Rat := { (Style.default : Style Rat) with display := .flex, gap := ⟨.length 4, .length 0⟩ }
 def exKidI : Style Rat :=
   { (Style.default : Style Rat) with
-    display := .block, size := ⟨.length 20, .length 5⟩, maxSize := ⟨.length 12, .auto⟩, flexShrink := 2 }
+    display := .block, size := ⟨.length (1/2), .length 5⟩, maxSize := ⟨.length (1/4), .auto⟩, flexShrink := 1/4 }
 def exInI : LayoutInput Rat := { exIn with availableSpace := ⟨.maxContent, .maxContent⟩, parentSize := ⟨none, none⟩ }
-
-example : ¬ NoIntrinsicMain exRootI (flexInput exRootI exInI) ∧
-    RunFloorFree (1/8) exRootI [exKidI, exKidA] exInI exOrc := by decide +kernel
 
 example : runO (scaleOrc (1/8) exOrc)
       (computeFlexboxLayout (scale (1/8) exRootI) ([exKidI, exKidA].map (scale (1/8))) (scale (1/8) exInI)) =
     scale (1/8) (runO exOrc (computeFlexboxLayout exRootI [exKidI, exKidA] exInI)) :=
-  flex_homogeneous_run_partial (by norm_num) _ _ _ _ (by decide +kernel)
+  flex_homogeneous_run (by norm_num) _ _ _ _
 
 example : boxes (runO exOrc (computeFlexboxLayout exRootI [exKidI, exKidA] exInI)) =
-    (⟨67, 13⟩, [(0, ⟨0, 0⟩, ⟨12, 5⟩), (1, ⟨17, 0⟩, ⟨50, 10⟩)]) := by decide +kernel
+    (⟨221/4, 13⟩, [(0, ⟨0, 0⟩, ⟨1/4, 5⟩), (1, ⟨21/4, 0⟩, ⟨50, 10⟩)]) := by decide +kernel
+example : boxes (runO (scaleOrc 4 exOrc)
+      (computeFlexboxLayout (scale 4 exRootI) ([exKidI, exKidA].map (scale 4)) (scale 4 exInI))) =
+    (⟨221, 52⟩, [(0, ⟨0, 0⟩, ⟨1, 20⟩), (1, ⟨21, 0⟩, ⟨200, 40⟩)]) := by decide +kernel
+
+/-- a tree: a block root with an absolutely positioned flex row (the witness item and a text item) and a wrapping flex
+row whose third item is itself a flex row `exRootI` — sized under a max-content constraint by its parent's
+`determine_flex_base_size`, i.e. through the intrinsic arm, with the shrinking item `exKidI` — holding a flex column:
+`NoGrid`, not block-only -/
+def exColumn : Style Rat :=
+  { (Style.default : Style Rat) with display := .flex, flexDirection := .column, gap := ⟨.length 0, .length 3⟩ }
+def exBlockRoot : Style Rat :=
+  { (Style.default : Style Rat) with
+    display := .block, size := ⟨.length 160, .auto⟩, padding := ⟨.length 2, .length 2, .length 2, .length 2⟩ }
+def exLeaf : Style Rat := { (Style.default : Style Rat) with display := .block }
+def exFloat : Style Rat :=
+  { (Style.default : Style Rat) with display := .flex, position := .absolute, inset := ⟨.length 1, .auto, .length 1, .auto⟩ }
+def exTree : STree Rat :=
+  .node exBlockRoot none
+    [.node exFloat none [.node wChild none [], .node exLeaf (some (.wrap 30 6)) []],
+     .node exRoot none
+       [.node exKidA none [], .node exKidB (some (.wrap 50 8)) [],
+        .node exRootI none
+          [.node exKidI none [],
+           .node exColumn none [.node exLeaf (some (.fixed 20 7)) [], .node exLeaf (some (.wrap 30 6)) []]]]]
+
+theorem exTree_noGrid : NoGrid exTree := by
+  simp [exTree, NoGrid, NoGridList, exBlockRoot, exFloat, exRoot, exRootI, exColumn, wChild, exLeaf, exKidA, exKidB,
+    exKidI, Style.default]
+
+def treeIn : LayoutInput Rat :=
+  { runMode := .performLayout, sizingMode := .inherentSize, axis := .both, knownDimensions := ⟨none, none⟩,
+    parentSize := ⟨some 200, none⟩, availableSpace := ⟨.definite 200, .maxContent⟩,
+    verticalMarginsAreCollapsible := ⟨false, false⟩ }
+
+/-- `tree_homogeneous_block_flex_leaf_trees` for this tree at k = 4, whatever the grid algorithm -/
+example (grid : Style Rat → List (Style Rat) → LayoutInput Rat → ProgM Rat (LayoutOutput Rat)) :
+    evalNode noCache (concreteAlgs computeFlexboxLayout grid) 6 (scale 4 exTree) (NS.init noCache (scale 4 exTree))
+        (scale 4 treeIn) =
+      scale 4 (evalNode noCache (concreteAlgs computeFlexboxLayout grid) 6 exTree (NS.init noCache exTree) treeIn) :=
+  tree_homogeneous_block_flex_leaf_trees_fresh (by norm_num) grid 6 exTree treeIn exTree_noGrid
+
+/-- sizes and locations of a node's children and grandchildren -/
+def kidLayouts2 (r : LayoutOutput Rat × NS Rat Unit) :
+    Size Rat × List ((Point Rat × Size Rat) × List (Point Rat × Size Rat)) :=
+  (r.1.size, r.2.kids.map fun n =>
+    ((n.layout.location, n.layout.size), n.kids.map fun m => (m.layout.location, m.layout.size)))
+
+/-- what the two evaluations are (grid stand-in: the block model; by the theorem above any other gives the same): every
+size and location is multiplied by 4.  The nested row `exRootI` is `1/4 + 4 + 30 = 137/4` wide: its shrinking item
+contributes its content size 1/4 (flex basis 1/2, fraction `−1/4 / (max(1, 1/4)·1/2) = −1/2`), through the intrinsic arm
+(before the repair: 3/8, and 1 instead of 3/2 at four times the size). -/
+example : kidLayouts2 (evalNode noCache (concreteAlgs computeFlexboxLayout BlockModel.computeBlockLayout) 6 exTree
+      (NS.init noCache exTree) treeIn) =
+    (⟨160, 56⟩,
+      [((⟨1, 1⟩, ⟨61/2, 6⟩), [(⟨0, 0⟩, ⟨1/4, 1⟩), (⟨1/4, 0⟩, ⟨30, 6⟩)]),
+       ((⟨2, 2⟩, ⟨100, 52⟩), [(⟨3, 35/2⟩, ⟨43, 10⟩), (⟨50, 16⟩, ⟨48, 16⟩), (⟨2, 34⟩, ⟨137/4, 16⟩)])]) := by
+  decide +kernel
+example : kidLayouts2 (evalNode noCache (concreteAlgs computeFlexboxLayout BlockModel.computeBlockLayout) 6
+      (scale 4 exTree) (NS.init noCache (scale 4 exTree)) (scale 4 treeIn)) =
+    (⟨640, 224⟩,
+      [((⟨4, 4⟩, ⟨122, 24⟩), [(⟨0, 0⟩, ⟨1, 4⟩), (⟨1, 0⟩, ⟨120, 24⟩)]),
+       ((⟨8, 8⟩, ⟨400, 208⟩), [(⟨12, 70⟩, ⟨172, 40⟩), (⟨200, 64⟩, ⟨192, 64⟩), (⟨8, 136⟩, ⟨137, 64⟩)])]) := by
+  decide +kernel
 
 end examples
 
@@ -299,16 +422,18 @@ end C04Flex
 /-
   Obligations to audit (`#print axioms`; all depend on [propext, Classical.choice, Quot.sound] at most):
   EVALFLEX_C04 = [
-    "C04Flex.flex_split", "C04Flex.flex_after_main_homogeneous", "C04Flex.flex_prefix_sim", "C04Flex.simS_iff_scaleProg",
-    "C04Flex.noIntrinsicMain_iff", "C04Flex.flex_homogeneous_partial", "C04Flex.noIntrinsicMain_scale",
-    "C04Flex.flex_homogeneous_run_partial", "C04Flex.run_of_homogeneous", "C04Flex.item_floor_homogeneous",
-    "C04Flex.item_fraction_not_homogeneous", "C04Flex.witness_values", "C04Flex.witness_side_condition",
-    "C04Flex.flex_not_homogeneous", "C04Flex.not_algsHomogeneous_flex",
+    "C04Flex.flex_homogeneous", "C04Flex.flex_split", "C04Flex.flex_prefix_homogeneous",
+    "C04Flex.flex_main_size_homogeneous", "C04Flex.flex_after_main_homogeneous", "C04Flex.item_fraction_homogeneous",
+    "C04Flex.item_fraction_sign", "C04Flex.item_target_homogeneous", "C04Flex.item_target_eq",
+    "C04Flex.flex_homogeneous_run", "C04Flex.run_of_homogeneous", "C04Flex.algsHomogeneous_flex",
+    "C04Flex.tree_homogeneous_flex_algs", "C04Flex.NoGrid_NoG_real", "C04Flex.NoGrid_scale", "C04Flex.eval_noGrid_congr",
+    "C04Flex.tree_homogeneous_block_flex_leaf_trees", "C04Flex.tree_homogeneous_block_flex_leaf_trees_fresh",
+    "C04Flex.exTree_noGrid",
     -- supporting lemmas worth auditing by name
     "FlexStages.computePreliminary_eq", "FlexStages.computePreliminary_split", "FlexStages.flexBaseSizeItem_eq",
     "FlexStages.intrinsicItem_eq", "FlexStages.determineContainerMainSize_eq", "FlexStages.hypotheticalCrossItem_eq",
     "FlexStages.baselineItems_cons", "FlexStages.calculateFlexItem_eq", "FlexStages.absItem_eq",
-    "C04.intrinsicTarget_scale", "C04.inFraction_scale", "C04.intrinsicLines_sim", "C04.afterMain_scale",
-    "C04.computeFlexboxLayout_scale_of", "C04.computeFlexboxLayout_scale_run", "C04.runO_sim",
+    "C04.intrinsicTarget_scale", "C04.inFraction_scale", "C04.intrinsicLines_scale", "C04.afterMain_scale",
+    "C04.prefixProg_scale", "C04.computeFlexboxLayout_scale", "C04.computeFlexboxLayout_scale_run", "C04.runO_sim",
   ]
 -/
